@@ -1,6 +1,6 @@
 (* C03 — admin operations have exactly the requested effect, on the target only. *)
 From stdpp Require Import gmap.
-Require Import Model.Base Model.Validate Model.State Model.Staking Model.Slashing Model.Poa Model.App proofs.L1Effects proofs.InvHistory proofs.InvElig.
+Require Import Model.Base Model.Validate Model.State Model.Staking Model.Slashing Model.Poa Model.App proofs.L1Effects proofs.InvHistory proofs.InvComet proofs.InvElig proofs.InvUpd.
 
 (* the target gets exactly the requested tokens/shares/self-delegation and one index entry at the new power;
    x/staking's last powers (what CometBFT holds) are left for its EndBlocker to update *)
@@ -41,3 +41,35 @@ Theorem C03_last_power_is_token_power : forall g bs,
   forall id, last_pow s !! id =
     match vals s !! id with Some v => if eligible v then Some (tokens_to_power (v_tokens v)) else None | None => None end.
 Proof. exact reachable_set. Qed.
+
+(* a block's validator updates mention only validators whose last validator power changes in that block's EndBlock,
+   and say exactly what it changes to (p = 0: leaves the set): for every update (k, p) returned by any block applied to
+   any reachable state there is a validator with consensus key k whose last power becomes p and was something else *)
+Theorem C03_updates_mention_only_validators_whose_power_changes : forall g bs b w' out,
+  wf_genesis g ->
+  let w := run_world (init_world g) bs in
+  w_halted w = None -> run_block w b = (w', Some out) ->
+  forall k p, In (k, p) (bo_updates out) ->
+    exists id, last_pow (stk (w_chain w')) !! id = new_power p /\
+               last_pow (stk (w_chain w)) !! id <> last_pow (stk (w_chain w')) !! id /\
+               ((exists v, vals (stk (w_chain w')) !! id = Some v /\ v_cons v = k) \/
+                (exists v, vals (stk (w_chain w)) !! id = Some v /\ v_cons v = k)).
+Proof.
+  intros g bs b w' out Hg w Hh Hrun. apply (block_updates_only_changes w b w' out); [|exact Hh|exact Hrun].
+  apply run_world_WI. apply init_world_WI. exact Hg.
+Qed.
+
+(* hence (max_validators not binding before and after) only validators whose jailed flag or token power differs between
+   the end of the previous block and the end of this one — the targets of the block's successful PoA messages, and the
+   validators slashing jailed or unjailed in it: nobody else's power changes as a side effect *)
+Theorem C03_no_side_effects_on_other_validators : forall g bs b w' out,
+  wf_genesis g ->
+  let w := run_world (init_world g) bs in
+  w_halted w = None -> run_block w b = (w', Some out) -> w_halted w' = None ->
+  n_pos (pidx (stk (w_chain w))) <= sp_max_validators (params (stk (w_chain w))) ->
+  n_pos (pidx (stk (w_chain w'))) <= sp_max_validators (params (stk (w_chain w'))) ->
+  forall k p, In (k, p) (bo_updates out) ->
+    exists id, elig_power (stk (w_chain w')) id = new_power p /\ elig_power (stk (w_chain w)) id <> elig_power (stk (w_chain w')) id /\
+               ((exists v, vals (stk (w_chain w')) !! id = Some v /\ v_cons v = k) \/
+                (exists v, vals (stk (w_chain w)) !! id = Some v /\ v_cons v = k)).
+Proof. exact history_updates_only_changes. Qed.
